@@ -50,6 +50,10 @@ def run(ctx):
     from rules.c09 import Renamed
     c10.r2(Renamed(ctx, "C10.R2", "C19.R8"), facts, "A")
     c14.stream_write(Renamed(ctx, "C14.R1h", "C19.R9"), facts)
+    # a statement with named placeholders made through LOG_RUNTIME_METADATA is delivered like any other: its run-time metadata is applied
+    # on the named-args arm of the decoder too (= C12.R9a)
+    from rules import c12
+    c12.r9_runtime_metadata(Renamed(ctx, "C12.R9a", "C19.R10"), facts, only=("C12.R9a",))
 
 
 def r1(ctx):
@@ -90,7 +94,14 @@ def r2(ctx, facts):
     br = branches_on_call(f, r"MacroMetadata::has_named_args$")
     if not br:
         raise AnalysisBroken("decode function: has_named_args test not found")
-    bid, tlab, _c = br[0]
+    # the test that routes the statement: the one whose positive outcome leads to the named-args population (a later test of the same
+    # flag, e.g. around the runtime-metadata step, decides something else)
+    nam_all = npos(f, f.calls(r"::_populate_formatted_named_args$"))
+    routing = [(b_, l_, c_) for (b_, l_, c_) in br
+               if g.exists_path([y for (y, lab) in g.succ.get(tnode(g, b_), ()) if lab == l_], nam_all)]
+    if not routing:
+        raise AnalysisBroken("decode function: no has_named_args test leads to _populate_formatted_named_args")
+    bid, tlab, _c = routing[0]
     t = tnode(g, bid)
     named = g.reach([t], avoid_edges=[(bid, other(tlab))])
     msg = [c for c in f.calls(r"::_populate_formatted_log_message$") if any(p in named for p in g.positions(c))]
